@@ -15,6 +15,8 @@ import (
 	dragonboat "github.com/lni/dragonboat/v4"
 	"github.com/lni/dragonboat/v4/config"
 	"github.com/lni/dragonboat/v4/internal/vfhelp"
+	"github.com/lni/dragonboat/v4/logger"
+	pb "github.com/lni/dragonboat/v4/raftpb"
 	"pgregory.net/rapid"
 )
 
@@ -47,10 +49,11 @@ const (
 	c07Restart
 	c07Transfer
 	c07Snapshot
+	c07StaleCampaign
 	c07NumOps
 )
 
-var c07OpNames = [...]string{"add-voter", "add-nonvoting", "add-witness", "promote", "remove", "invalid", "race", "isolate", "restart", "transfer", "snapshot"}
+var c07OpNames = [...]string{"add-voter", "add-nonvoting", "add-witness", "promote", "remove", "invalid", "race", "isolate", "restart", "transfer", "snapshot", "stale-campaigner"}
 
 type c07Step struct {
 	Op      c07Op
@@ -225,7 +228,7 @@ var famE6C07 = set("membership-differs-from-completed-changes", "removed-replica
 	"stale-ordered-config-change-accepted", "two-ordered-changes-with-one-id-accepted", "rejected-config-change-changed-membership",
 	"membership-differs-between-replicas", "unknown-outcome-resolved-to-impossible-membership",
 	"linearizability-violated", "replicas-applied-different-entries", "replica-state-differs-at-same-index", "write-applied-twice",
-	"restart-failed", "joiner-start-failed", "completed-request-never-applied")
+	"restart-failed", "joiner-start-failed", "completed-request-never-applied", "vote-response-without-request")
 
 func genC07Plan(t *rapid.T) c07Plan {
 	p := c07Plan{
@@ -245,7 +248,7 @@ func genC07Plan(t *rapid.T) c07Plan {
 	}
 	// membership changes are what this unit is about: they outweigh the pure faults
 	weighted := []c07Op{c07AddVoter, c07AddVoter, c07AddNonVoting, c07AddNonVoting, c07AddWitness, c07Promote, c07Promote, c07Remove, c07Remove, c07Remove,
-		c07Invalid, c07Invalid, c07Invalid, c07Race, c07Isolate, c07Restart, c07Transfer, c07Snapshot}
+		c07Invalid, c07Invalid, c07Invalid, c07Race, c07Isolate, c07Isolate, c07Restart, c07Transfer, c07Snapshot, c07StaleCampaign}
 	n := 8 + vfhelp.PickN(t, "nsteps", 9)
 	for i := 0; i < n; i++ {
 		op := weighted[vfhelp.PickN(t, "op", len(weighted))]
@@ -303,6 +306,9 @@ type c07Run struct {
 	applied int // membership changes that took effect
 	refused int
 	removals int
+	usedHost  map[int]bool // hosts that run or ran a replica
+	onRemoved func(rid uint64)
+	onJoined  func(h *Host)
 }
 
 func (r *c07Run) label(l string) { r.labels[l]++ }
@@ -340,14 +346,22 @@ func (r *c07Run) via(k int) *Host {
 }
 
 func (r *c07Run) spare(k int) *Host {
-	var cands []*Host
+	var cands, used []*Host
 	for _, h := range r.c.Hosts {
 		if h.Up && r.ridOn[h.Idx] == 0 {
 			cands = append(cands, h)
+			if r.usedHost[h.Idx] {
+				used = append(used, h)
+			}
 		}
 	}
 	if len(cands) == 0 {
 		return nil
+	}
+	if len(used) > 0 && k%2 == 1 {
+		// the host of a removed replica: peers that have not learnt of the removal yet keep
+		// sending the removed replica's messages to the address the new replica listens on
+		return used[(k/2)%len(used)]
 	}
 	return cands[k%len(cands)]
 }
@@ -376,6 +390,10 @@ func (r *c07Run) observe(k int) (*dragonboat.Membership, bool) {
 		if err == nil {
 			r.invariants(m)
 			return m, true
+		}
+		if os.Getenv("VF_DEBUG_C07") != "" {
+			lid, term, valid, lerr := h.NH.GetLeaderID(shardID)
+			fmt.Fprintf(os.Stderr, "%d observe via host %d (rid %d): %v; leader %d term %d valid %v err %v\n", Now(), h.Idx, r.ridOn[h.Idx], err, lid, term, valid, lerr)
 		}
 		time.Sleep(10 * time.Millisecond)
 	}
@@ -555,6 +573,9 @@ func (r *c07Run) change(k int, ch c07Change) (took bool, ok bool) {
 		if ch.kind == "remove" {
 			r.removals++
 			r.label("removal-took-effect")
+			if r.onRemoved != nil {
+				r.onRemoved(ch.rid)
+			}
 		}
 		if !r.settle(k, ch.String()) {
 			return took, false
@@ -573,7 +594,11 @@ func (r *c07Run) startJoiner(h *Host, rid uint64, role c07Role) bool {
 		if err == nil {
 			r.mu.Lock()
 			r.ridOn[h.Idx], r.roleOn[h.Idx] = rid, role
+			r.usedHost[h.Idx] = true
 			r.mu.Unlock()
+			if r.onJoined != nil {
+				r.onJoined(h)
+			}
 			return true
 		}
 		if err != dragonboat.ErrShardAlreadyExist {
@@ -591,18 +616,48 @@ func runC07(t *rapid.T, st *vfhelp.Stats, p c07Plan) ([]string, bool, bool) {
 }
 
 func runC07Fam(t *rapid.T, st *vfhelp.Stats, p c07Plan, fam map[string]bool, prop string) ([]string, bool, bool) {
+	if os.Getenv("VF_DEBUG_RAFTLOG") != "" {
+		logger.GetLogger("raft").SetLevel(logger.INFO)
+	}
 	rec := NewRecorder()
 	c := NewCluster(ClusterOptions{Hosts: p.Hosts, Tan: p.Tan, Seed: 13, RTTms: 2})
 	defer c.Close()
 	res := &Result{Plan: Plan{Hosts: p.Hosts, Kind: p.Kind, Tan: p.Tan, Keys: 2}, Rec: rec, Flags: map[string]int{}, Cluster: c}
 	res.sent = newSendMonitor(res, c)
-	c.Net.OnSend = res.sent.onSend
+	var removedIDs, reusedAddr sync.Map // replica ids removed so far; addresses that run a second replica id
+	var staleVoteReqs, staleVoteReqsToReused int64
+	c.Net.OnSend = func(from, to string, m pb.Message) {
+		res.sent.onSend(from, to, m)
+		if m.Type == pb.RequestVote || m.Type == pb.RequestPreVote {
+			if _, gone := removedIDs.Load(m.To); gone {
+				atomic.AddInt64(&staleVoteReqs, 1)
+				if _, again := reusedAddr.Load(to); again {
+					atomic.AddInt64(&staleVoteReqsToReused, 1)
+				}
+			}
+		}
+	}
+	defer func() {
+		if atomic.LoadInt64(&staleVoteReqs) > 0 {
+			st.Count("vote-request-addressed-to-removed-replica", 1)
+		}
+		if atomic.LoadInt64(&staleVoteReqsToReused) > 0 {
+			st.Count("vote-request-for-removed-replica-sent-to-reused-host", 1)
+		}
+	}()
 	if p.NetDelayMs > 0 {
 		c.Net.SetMaxDelay(time.Duration(p.NetDelayMs) * time.Millisecond)
 	}
 	r := &c07Run{p: p, c: c, res: res, spec: NewShardSpec(shardID, p.Kind, rec), ridOn: map[int]uint64{}, roleOn: map[int]c07Role{},
-		promoted: map[uint64]bool{}, nextID: 4, labels: map[string]int{},
+		promoted: map[uint64]bool{}, nextID: 4, labels: map[string]int{}, usedHost: map[int]bool{0: true, 1: true, 2: true},
 		model: &c07Model{role: map[uint64]c07Role{}, addr: map[uint64]string{}, removed: map[uint64]bool{}}}
+	r.onRemoved = func(rid uint64) { removedIDs.Store(rid, true) }
+	r.onJoined = func(h *Host) {
+		if h.Idx < 3 || func() bool { _, ok := reusedAddr.Load("seen:" + h.Addr); return ok }() {
+			reusedAddr.Store(h.Addr, true)
+		}
+		reusedAddr.Store("seen:"+h.Addr, true)
+	}
 	inconclusive := func(why string) ([]string, bool, bool) {
 		st.Count("inconclusive-"+why, 1)
 		return nil, false, false
@@ -701,6 +756,7 @@ func runC07Fam(t *rapid.T, st *vfhelp.Stats, p c07Plan, fam map[string]bool, pro
 	}{c07AddVoter: {"add-voter", roleVoter}, c07AddNonVoting: {"add-nonvoting", roleNonVoting}, c07AddWitness: {"add-witness", roleWitness}}
 
 	alive := true
+	var healWg sync.WaitGroup // heals of isolations that span several steps
 	for si, s := range p.Steps {
 		if !alive || len(res.AllViolations()) > 0 {
 			break
@@ -728,6 +784,92 @@ func runC07Fam(t *rapid.T, st *vfhelp.Stats, p c07Plan, fam map[string]bool, pro
 					alive = false
 				}
 			}
+		case c07StaleCampaign:
+			// A full member Z is cut off (once X's host runs the new replica, what Z sends to that host is delivered again), another
+			// full member X is removed and a new replica Y is added and started on X's host.
+			// Z keeps campaigning with the membership it knows: its vote requests for X arrive
+			// at the address Y listens on. Then the network heals and Z catches up.
+			voters := r.model.voters()
+			// (five full members: without Z and X, and before the new replica runs, three of them
+			// still are a quorum of the four / five members of the configurations on the way)
+			if len(voters) < 5 {
+				r.label("skipped-stale-campaigner-needs-5-full-members")
+				continue
+			}
+			var lid uint64
+			for _, h := range c.Hosts {
+				if h.Up && r.ridOn[h.Idx] != 0 {
+					if id, _, ok, err := h.NH.GetLeaderID(shardID); err == nil && ok {
+						lid = id
+						break
+					}
+				}
+			}
+			var cands []uint64
+			for _, v := range voters {
+				if h := r.hostOf(v); v != lid && h != nil && h.Up && !r.promoted[v] {
+					cands = append(cands, v)
+				}
+			}
+			if lid == 0 || len(cands) < 2 {
+				r.label("skipped-stale-campaigner-no-leader")
+				continue
+			}
+			sort.Slice(cands, func(i, j int) bool { return cands[i] < cands[j] })
+			z, x := cands[s.A%len(cands)], cands[(s.A+1)%len(cands)]
+			zh, xh := r.hostOf(z), r.hostOf(x)
+			// (a member that is heard by everybody and hears nobody deposes every leader when
+			// neither PreVote nor CheckQuorum is on: Z is cut off in both directions at first)
+			for _, o := range c.Hosts {
+				if o != zh {
+					c.Net.SetDown(o.Addr, zh.Addr, true)
+					c.Net.SetDown(zh.Addr, o.Addr, true)
+				}
+			}
+			r.label("stale-campaigner")
+			if os.Getenv("VF_DEBUG_C07") != "" {
+				fmt.Fprintf(os.Stderr, "stale-campaigner: voters %v leader %d z %d (host %d) x %d (host %d) model %s\n", voters, lid, z, zh.Idx, x, xh.Idx, r.model)
+			}
+			k := s.B
+			for tries := 0; tries < 12; tries++ {
+				if h := r.via(k); h != nil && h != zh && h != xh {
+					break
+				}
+				k++
+			}
+			took, ok := r.change(k, c07Change{"remove", x, ""})
+			alive = ok
+			if took && alive {
+				r.label("took-remove")
+				time.Sleep(time.Duration(5+s.C) * time.Millisecond)
+				r.mu.Lock()
+				r.ridOn[xh.Idx], r.roleOn[xh.Idx] = 0, roleNone
+				r.mu.Unlock()
+				_ = xh.NH.StopReplica(shardID, x)
+				for tries := 0; tries < 12; tries++ {
+					if h := r.via(k); h != nil && h != zh {
+						break
+					}
+					k++
+				}
+				rid := r.nextID
+				r.nextID++
+				took2, ok2 := r.change(k, c07Change{"add-voter", rid, xh.Addr})
+				alive = ok2
+				if took2 && alive {
+					r.label("took-add-voter")
+					if !r.startJoiner(xh, rid, roleVoter) {
+						alive = false
+					} else {
+						r.label("stale-campaigner-host-reused")
+						// from now on what Z sends to X's former host is delivered
+						c.Net.SetDown(zh.Addr, xh.Addr, false)
+					}
+				}
+			}
+			// Z's election timeout passes a few times
+			time.Sleep(time.Duration(80+30*s.B) * time.Millisecond)
+			c.Net.HealAll()
 		case c07Promote:
 			nvs := r.model.byRole(roleNonVoting)
 			if len(nvs) == 0 {
@@ -801,13 +943,34 @@ func runC07Fam(t *rapid.T, st *vfhelp.Stats, p c07Plan, fam map[string]bool, pro
 			alive = r.race(s)
 		case c07Isolate:
 			h := c.Hosts[s.A%p.Hosts]
+			// (C%4 == 3: a deaf replica - it hears nobody, but what it sends is delivered: it
+			// keeps campaigning with the membership it knows, and its vote requests reach the
+			// hosts of replicas that were removed - and replaced - meanwhile)
+			deaf := s.C%4 == 3
 			for _, o := range c.Hosts {
 				if o != h {
-					c.Net.SetDown(h.Addr, o.Addr, true)
+					if !deaf {
+						c.Net.SetDown(h.Addr, o.Addr, true)
+					}
 					c.Net.SetDown(o.Addr, h.Addr, true)
 				}
 			}
 			r.label("fault-isolate")
+			if deaf {
+				r.label("fault-deaf-replica")
+			}
+			if s.C%2 == 1 {
+				// the host stays cut off while the next steps run: its replica misses membership
+				// changes, campaigns with the membership it knows and catches up after the heal
+				r.label("fault-isolate-across-steps")
+				healWg.Add(1)
+				go func(d time.Duration) {
+					defer healWg.Done()
+					time.Sleep(d)
+					c.Net.HealAll()
+				}(time.Duration(60+40*s.B) * time.Millisecond)
+				continue
+			}
 			time.Sleep(time.Duration(20+10*s.B) * time.Millisecond)
 			c.Net.HealAll()
 		case c07Restart:
@@ -860,6 +1023,7 @@ func runC07Fam(t *rapid.T, st *vfhelp.Stats, p c07Plan, fam map[string]bool, pro
 	}
 	close(stop)
 	wg.Wait()
+	healWg.Wait()
 	c.Net.HealAll()
 
 	// every member's own view (a linearizable read through that very host) agrees
@@ -994,6 +1158,49 @@ func c07Async(res *Result, nh *dragonboat.NodeHost, hi, w int, key string, timeo
 		}
 	}
 	rs.Release()
+}
+
+// A member that missed membership changes keeps talking to the replicas it knows: the
+// host of a removed replica runs a new replica of the same shard by then. Every plan
+// starts with "add a full member" and the stale-campaigner macro (see c07StaleCampaign).
+func TestVF_C07_StaleMember(t *testing.T) {
+	st := vfhelp.NewStats("TestVF_C07_StaleMember",
+		"E6 nhcluster: five full members; one is cut off, another one is removed and a new replica is added and started on the removed one's host; what the cut off member sends to that host is delivered again, it campaigns with the membership it knows, then the network heals; followed by generated membership changes and faults as in TestVF_C07_Cluster; "+
+			"oracle = as TestVF_C07_Cluster plus the wire monitor (a vote / pre-vote response answers a request that was addressed to the responding replica); "+
+			"non-trivial = the removed replica's host was reused while the stale member was campaigning; distinct = hash of the plan")
+	defer st.Flush()
+	rapid.Check(t, func(t *rapid.T) {
+		p := genC07Plan(t)
+		pre := []c07Step{{Op: c07AddVoter, A: 0, B: vfhelp.PickN(t, "b0", 7), AfterMs: 2}, {Op: c07AddVoter, A: 0, B: vfhelp.PickN(t, "b00", 7), AfterMs: 2},
+			{Op: c07StaleCampaign, A: vfhelp.PickN(t, "a1", 6), B: vfhelp.PickN(t, "b1", 4), C: vfhelp.PickN(t, "c1", 7), AfterMs: 20 + vfhelp.PickN(t, "after1", 100)}}
+		if len(p.Steps) > 6 {
+			p.Steps = p.Steps[:6]
+		}
+		p.Steps = append(pre, p.Steps...)
+		if data, err := json.MarshalIndent(p, "", " "); err == nil {
+			_ = os.WriteFile("artefact-current-plan.json", data, 0o644)
+		}
+		labels, _, ok := runC07(t, st, p)
+		if !ok {
+			return
+		}
+		nt := false
+		for _, l := range labels {
+			if l == "stale-campaigner-host-reused" {
+				nt = true
+			}
+		}
+		canon, _ := json.Marshal(p)
+		sort.Strings(labels)
+		st.Case(canon, nt, labels...)
+		if nt && st.WantSample() {
+			var ss []string
+			for _, s := range p.Steps {
+				ss = append(ss, s.String())
+			}
+			st.Sample(map[string]interface{}{"hosts": p.Hosts, "kind": p.Kind.String(), "prevote": p.PreVote, "checkquorum": p.CheckQuorum, "steps": strings.Join(ss, " "), "outcome": labels})
+		}
+	})
 }
 
 // The asynchronous request API while the membership changes (C12): every Propose /
